@@ -856,12 +856,15 @@ pub fn run(ctx: &Ctx) -> (Vec<Case>, String, bool, BTreeMap<String, String>) {
     });
     let (mm, mmio_rule) = crate::c08_mmio::run_mmio(ctx);
     cases.extend(mm);
+    // queue level: a queue created without RING_INDIRECT_DESC never publishes an indirect table, however
+    // full it is (the structured queue stream of C03 with that one oracle)
+    cases.extend(crate::cq_queue::run_structured(ctx, "C08", 400, 4000));
     let selftest = crate::c09_drop::oracle_selftest(ctx.case_id("C08", "oracle-selftest", 0));
     if ctx.wants(&selftest.id) {
         cases.push(selftest);
     }
     let rule = format!(
-        "model transport: 11 drivers x (all 2^m combinations of the driver's relevant feature bits on an all-zero and an all-ones background, boundary words, random 64-bit words) x (modern, legacy queue layout); each case = construct, compare the ordered transport/HAL event list with the model, run the feature-gated operations (blk flush, console size / emergency write, gpu EDID, net header length; rng / 9p requests for the INDIRECT flag) against a reference device, drop; non-trivial = construction succeeded. {}",
+        "model transport: 11 drivers x (all 2^m combinations of the driver's relevant feature bits on an all-zero and an all-ones background, boundary words, random 64-bit words) x (modern, legacy queue layout); each case = construct, compare the ordered transport/HAL event list with the model, run the feature-gated operations (blk flush, console size / emergency write, gpu EDID, net header length; rng / 9p requests for the INDIRECT flag) against a reference device, drop; non-trivial = construction succeeded. {} Plus the structured bare-queue stream: no indirect table on a queue created without the feature.",
         mmio_rule
     );
     let mut extra = BTreeMap::new();
